@@ -634,7 +634,7 @@ class HistRun:
                     return {"op": "mkcalendar", "path": path, "props": []}
                 return {"op": "mkcol", "path": path, "kind": kind, "props": []}
             for _ in range(10):
-                nm = r.choice(["c1", "c2", "work", "home", "sub"]) if self.names_mode == "simple" or r.random() < 0.7 else gen.member_base(r, self.names_mode)
+                nm = r.choice(["c1", "c2", "work", "home", "sub"]) if self.names_mode == "simple" or r.random() < (0.3 if self.prop == "C16" else 0.7) else gen.member_base(r, self.names_mode)
                 if parent + nm + "/" not in m.colls:
                     break
             else:
@@ -674,6 +674,9 @@ class HistRun:
             return op
         if k == "propfind":
             c = self.pick_coll()
+            special = [x for x in self.store_colls() if any(ch in x.name for ch in " %#?;+&=@:~(),'") or any(ord(ch) > 127 for ch in x.name)]
+            if self.prop == "C16" and special and r.random() < 0.5:
+                c = r.choice(special)
             pm = self.pick_member()
             path = c.path if (pm is None or r.random() < 0.6) else pm[0].path + pm[1]
             return {"op": "propfind", "path": path, "depth": r.choice(["0", "1"]), "kind": r.choice(["prop", "allprop", "propname"])}
